@@ -80,7 +80,7 @@ def _apply_nesting_config_override(
 
 def _apply_nesting_to_languages(nesting_config: dict, max_depth: int) -> None:
     """Apply max_depth to language-specific configs."""
-    for lang in ["python", "typescript", "javascript"]:
+    for lang in ["python", "typescript", "javascript", "rust"]:
         with suppress(KeyError):
             nesting_config[lang]["max_nesting_depth"] = max_depth
 
@@ -212,6 +212,11 @@ def _apply_srp_config_override(
     srp_config = ensure_config_section(orchestrator, "srp")
     set_config_value(srp_config, "max_methods", max_methods, verbose)
     set_config_value(srp_config, "max_loc", max_loc, verbose)
+    # SRPConfig prefers srp.<language>.* over srp.*: the command line must win there too
+    for lang in ["python", "typescript", "javascript", "rust"]:
+        with suppress(KeyError):
+            set_config_value(srp_config[lang], "max_methods", max_methods, verbose)
+            set_config_value(srp_config[lang], "max_loc", max_loc, verbose)
 
 
 def _run_srp_lint(
